@@ -608,6 +608,13 @@ impl<'a> R1<'a> {
                     (PFn::IsNumber, _) => vec![],
                     (PFn::IsVar, T::V(_)) => vec![st],
                     (PFn::IsVar, _) => vec![],
+                    (PFn::IsGround, t) => {
+                        if t.is_ground() {
+                            vec![st]
+                        } else {
+                            vec![]
+                        }
+                    }
                 }
             }
             G::UserTag(tag) => {
